@@ -114,6 +114,7 @@ UNITS['U19b'] = dict(
     kind='kani', crate='kani/U19b', timeout_s=600, mem_gb=8,
     title='BOUNDED fallback for the NullVecLike slice of U19 (runs when U19 is undecided, e.g. the arm was rewritten with iterator adapters, and in the thorough tier): NonNullElementCount arm over filters of up to 10 rows',
     harnesses=[dict(name='proofs::counts_true_and_present_rows', bounded='filters of <= 10 rows, any bytes, any presence bitmap, unwind 12', unwind=12, clause='count == number of rows with byte != 0 and present bit set', fn='NullVecLike::execute[slice NonNullElementCount]'),
+               dict(name='proofs::counts_true_and_present_rows_18', thorough_only=True, bounded='filters of <= 18 rows, unwind 20 (thorough tier)', unwind=20, clause='count == number of rows with byte != 0 and present bit set', fn='NullVecLike::execute[slice NonNullElementCount]'),
                dict(name='proofs::vx_canary', expect_fail=True)],
     assumptions=['stand-ins: Scratchpad::get_nullable hands out (data, present); the operator input handle is a unit value'],
     not_covered=['filters longer than 10 rows'])
@@ -392,7 +393,8 @@ UNITS['U28k'] = dict(
     title='BOUNDED (2, 3, 4 group-by columns): batch_merging::combine, aggregation branch - the plan that merges the grouping keys of two partial results (slice) with real unify_types / null_to_val',
     harnesses=[dict(name='proofs::%s_group_by_columns' % w, bounded='%d group-by columns at fixed positions, any limit, unwind 7' % n, unwind=7, clause='partition(key0) -> subpartition(key1..n-2 in order) -> merge_deduplicate_partitioned(key n-1) -> merge_drop replay on keys 0..n-2; outputs in key order', fn='combine[slice: >= 2 group-by columns]')
                for (w, n) in [('two', 2), ('three', 3), ('four', 4)]]
-    + [dict(name='proofs::vx_canary', expect_fail=True)],
+    + [dict(name='proofs::five_group_by_columns', thorough_only=True, bounded='5 group-by columns at fixed positions, any limit, unwind 8 (thorough tier)', unwind=8, clause='same chain for five keys', fn='combine[slice: >= 2 group-by columns]'),
+       dict(name='proofs::vx_canary', expect_fail=True)],
     assumptions=['A-astbuilder: planner methods partition / subpartition / merge_deduplicate_partitioned / merge_drop / cast are recording stand-ins for the generated node constructors',
                  'the kernels behind the nodes are U10 (merge_deduplicate*, partition, subpartition are partly covered there) and U09m'],
     not_covered=['more than 4 group-by columns', 'key columns of different types on the two sides (casts)', 'the single-key and no-key branches', 'the ORDER BY merge branch of combine'])
@@ -442,9 +444,10 @@ UNITS['U35k'] = dict(
     title='BOUNDED (seven fixed shapes: LIMIT n <= 2, one batch of <= 4 rows, keys any value in -128..=127): top_n.rs TopN::execute body (slice) with real heap_replace and i64 comparators - keeps the n best rows, LIMIT 0 keeps none',
     harnesses=[dict(name='proofs::%s' % h, bounded='fixed shape %s, unwind 7' % h, unwind=7, clause='min(n, rows) rows kept; each kept key is the key of its recorded row; rows distinct; no dropped row sorts strictly before a kept row; never a panic', fn='TopN::execute[slice] + heap_replace')
                for h in ('limit0_two_rows_asc', 'limit0_one_row_desc', 'limit1_three_rows_asc', 'limit2_two_rows_asc', 'limit2_one_row_asc', 'limit2_four_rows_asc', 'limit2_three_rows_desc')]
+    + [dict(name='proofs::%s' % h, thorough_only=True, bounded='fixed shape %s, unwind 7 (thorough tier)' % h, unwind=7, clause='same contract', fn='TopN::execute[slice] + heap_replace') for h in ('limit3_four_rows_asc', 'limit1_four_rows_desc', 'two_batches_fill_in_second_asc', 'two_batches_full_after_first_desc')]
     + [dict(name='proofs::vx_canary', expect_fail=True)],
     assumptions=['Vec::with_capacity(n).capacity() == n (TopN::init and execute rely on it; std only promises >= n)', 'R6: scratchpad bindings become parameters of the same guard types (Ref<[T]>, RefMut<Vec<_>>); self.n / self.last_index in a two-field stand-in'],
-    not_covered=['several batches (streaming)', 'TopN::finalize (final sort of the kept rows)', 'n > 2', 'the planner choice between top-n and full sort'])
+    not_covered=['more than two batches (two-batch shapes run in the thorough tier)', 'TopN::finalize (final sort of the kept rows)', 'n > 3', 'the planner choice between top-n and full sort'])
 
 UNITS['U24k'] = dict(
     kind='kani', crate='kani/U24', timeout_s=600, mem_gb=12, jobs=2,
